@@ -18,6 +18,7 @@ package json
 
 import (
 	"encoding/base64"
+	"math"
 	"runtime"
 	"strconv"
 	"unsafe"
@@ -281,6 +282,10 @@ func DecodeValue(src string, pos int) (ret int, v types.JsonState) {
 		var iv int64
 		ret, iv, _ = decodeInt64(src, pos)
 		if ret >= 0 {
+			if iv == 0 && c == '-' {
+				// "-0" denotes negative zero, which only a double can carry
+				return ret, types.JsonState{Vt: types.V_DOUBLE, Dv: math.Copysign(0, -1), Ep: int64(pos)}
+			}
 			return ret, types.JsonState{Vt: types.V_INTEGER, Iv: iv, Ep: int64(pos)}
 		} else if ret != -int(types.ERR_INVALID_NUMBER_FMT) {
 			return ret, types.JsonState{Vt: types.ValueType(ret)}
